@@ -15,6 +15,27 @@ from sigma.modifiers import SigmaModifier
 from sigma.processing.pipeline import ProcessingPipeline
 from sigma.rule import SigmaRule
 
+import atexit, os, shutil, tempfile
+from sigma.processing.transformations.external import ExternalSourceBaseTransformation
+
+os.environ.pop("PYSIGMA_ALLOW_EXTERNAL_SOURCES", None)   # process-wide switch: must not leak in from outside
+
+# ---- external sources: local files in a private temporary directory (no network, no commands) ----
+_DIR = tempfile.mkdtemp(prefix="c15_src_")
+atexit.register(shutil.rmtree, _DIR, True)
+for _name, _text in {"hosts.txt": "a\nb\n", "one.txt": "a\n", "empty.txt": "", "hosts.csv": "host,ip\na,1\nb,2\n",
+                     "bad.json": "{not json", "ok.json": '{"items": ["a", "b"], "n": {"x": 1}}',
+                     "bad.yaml": "a: [1, 2", "ok.yaml": "items:\n  - b\n  - a\n"}.items():
+    with open(os.path.join(_DIR, _name), "w") as _f:
+        _f.write(_text)
+
+def source_params(src):
+    """parameters of a file_placeholders transformation for a source description of props/c15.py SOURCES"""
+    t = {"path": os.path.join(_DIR, src["file"])}
+    for k in ("format", "csv_column", "jq_expression", "filter"):
+        if src.get(k) is not None: t[k] = src[k]
+    return t
+
 FMT = ["default", "test", "state"]
 PRODUCT = [None, "windows", "linux"]
 
@@ -28,6 +49,8 @@ def _item(d):
         t["mapping"] = dict(d["mapping"])
     elif d["type"] == "rule_failure":
         t["message"] = "unsupported"
+    elif d["type"] == "file_placeholders":
+        t.update(source_params(d["source"]))
     c = d.get("cond")
     if c is not None:
         if c[0] == "product":
@@ -38,6 +61,10 @@ def _item(d):
 
 def pipeline_yaml(items):
     return yaml.safe_dump({"name": "p", "priority": 10, "transformations": [_item(d) for d in items]})
+
+def allowed(items):
+    """external sources are enabled per pipeline load; a definition with a source marked allow=False is loaded without"""
+    return all(d.get("source", {}).get("allow", True) for d in items)
 
 _PARSED = {}
 def _parsed(text):
@@ -52,7 +79,7 @@ def make_pipeline(items):
     key = json.dumps(items, sort_keys=True)
     if key not in _PIPE_YAML:
         _PIPE_YAML[key] = pipeline_yaml(items)
-    return ProcessingPipeline.from_dict(_parsed(_PIPE_YAML[key]))
+    return ProcessingPipeline.from_dict(_parsed(_PIPE_YAML[key]), allow_external_sources=allowed(items))
 
 TEMPLATE_ATTRS = ["eq_expression", "re_expression", "cidr_expression", "startswith_expression",
                   "case_sensitive_startswith_expression", "endswith_expression",
@@ -85,6 +112,7 @@ def rule_doc(r, n):
             elif kind == "star": d[field] = text + "*"
             elif kind == "sw": d[field + "|startswith"] = text
             elif kind == "ph": d[field + "|expand"] = "%" + text + "%"
+            elif kind == "re": d[field + "|re"] = text
             else: raise ValueError(kind)
         det[name] = d
     if r["conds"]:
@@ -92,6 +120,8 @@ def rule_doc(r, n):
         det["condition"] = list(r["conds"]) if len(r["conds"]) > 1 else r["conds"][0]
     doc = {"title": f"rule {n}", "logsource": ({"product": PRODUCT[r["product"]]} if r["product"] else {"category": "c"}),
            "detection": det}
+    if r.get("fields"):
+        doc["fields"] = list(r["fields"])
     return doc
 
 def _det(items):
@@ -132,9 +162,18 @@ class World:
 
     def internals(self):
         ci = _parse_condition_string.cache_info()
-        return {"hits": ci.hits, "misses": ci.misses, "cached": ci.currsize,
+        vc = []
+        for p in self.users:       # file_placeholders objects of the user pipeline objects, in order
+            for it in p.items:
+                if isinstance(it.transformation, ExternalSourceBaseTransformation):
+                    c = it.transformation._values_cache
+                    vc.append(None if c is None else [str(x) for x in c])
+        return {"hits": ci.hits, "misses": ci.misses, "cached": ci.currsize, "vc": vc,
                 "hints": [k.__name__ for k in SigmaModifier._type_hint_cache],
-                "tpl_ok": all(getattr(c, a) == o[a] for c, o in zip(self.classes, self.orig) for a in TEMPLATE_ATTRS)}
+                "tpl_ok": all(getattr(c, a) == o[a] for c, o in zip(self.classes, self.orig) for a in TEMPLATE_ATTRS)
+                          # set on the class by TextQueryBackend.__new__: constant once an instance exists
+                          and all(type(b).explicit_not_exists_expression == (type(b).field_not_exists_expression is not None)
+                                  for b in self.backends)}
 
     def snap(self, b):
         p = getattr(self.backends[b], "last_processing_pipeline", None)
@@ -142,7 +181,8 @@ class World:
             return None
         return {"applied": list(p.applied), "ids": sorted(p.applied_ids),
                 "state": sorted([k, str(v)] for k, v in p.state.items()),
-                "fmap": canon_fm(p.field_mappings)}
+                "fmap": canon_fm(p.field_mappings),
+                "fna": sorted([k, sorted(v)] for k, v in p.field_name_applied_ids.items())}
 
     def step(self, op):
         kind = op[0]
@@ -204,3 +244,26 @@ def run_history(case):
                 f.step(["new", cls, user, collect])
                 each.append(f.step([probe[0], 0, [r]] + probe[3:]))
     return {"outs": outs, "fresh": fresh, "each": each}
+
+
+# ---- pipeline registry objects (sigma/pipelines/base.py): definitions in some order, then calls ----
+def run_registry(case):
+    """case["defs"]: list of ["dec", name] (function decorated with @Pipeline) / ["sub", name] (subclass of Pipeline
+    with apply()); afterwards every definition is resolved the way the plugin registry does (call the decorated
+    object / instantiate the subclass and call it) and the name of the ProcessingPipeline it yields is reported"""
+    from sigma.pipelines.base import Pipeline
+    objs = []
+    for kind, name in case["defs"]:
+        if kind == "dec":
+            def f(name=name):
+                return ProcessingPipeline(name=name)
+            objs.append(Pipeline(f))
+        else:
+            cls = type("P_" + name, (Pipeline,), {"apply": (lambda self, name=name: ProcessingPipeline(name=name))})
+            objs.append(cls)
+    out = []
+    for o in objs:
+        inst = o() if isinstance(o, type) else o
+        r = inst() if not isinstance(inst, ProcessingPipeline) else inst
+        out.append(r.name if isinstance(r, ProcessingPipeline) else repr(type(r)))
+    return {"names": out}
